@@ -40,6 +40,7 @@ func genC07(r *h.Rng, tier string, idx int) *h.Plan {
 	if r.P(1, 12) {
 		p.Cfg["storage"] = "bolt"
 	}
+	p.Cfg["battery_order"] = r.Pick([]string{"get-search-dispatch", "dispatch-search-get", "search-dispatch-get", "dispatch-get-search"})
 	ids := []string{"e1", "e2", "e3", "k1"}
 	p.Cfg["ids"] = toIface(ids)
 	p.Cfg["locs"] = toIface([]string{"L"})
@@ -91,6 +92,29 @@ func genC07(r *h.Rng, tier string, idx int) *h.Plan {
 	patterns = append(patterns, map[string]interface{}{"kind": "thing", "n": "?n"}, map[string]interface{}{"rule": "?r"})
 	p.Cfg["patterns"] = patterns
 	p.Cfg["events"] = events
+	// an observation: any of the operations that can reveal an item
+	observe := func() {
+		switch r.Weighted([]int{4, 3, 2, 1, 1}) {
+		case 0:
+			p.Ops = append(p.Ops, h.Op{K: "getfact", Loc: "L", Id: r.Pick(ids)})
+		case 1:
+			if len(events) > 0 {
+				p.Ops = append(p.Ops, h.Op{K: "event", Loc: "L", J: events[r.Intn(len(events))]})
+			} else {
+				p.Ops = append(p.Ops, h.Op{K: "getfact", Loc: "L", Id: r.Pick(ids)})
+			}
+		case 2:
+			p.Ops = append(p.Ops, h.Op{K: "search", Loc: "L", J: map[string]interface{}{"kind": "thing", "n": "?n"}})
+		case 3:
+			p.Ops = append(p.Ops, h.Op{K: "listrules", Loc: "L"})
+		case 4:
+			if len(events) > 0 {
+				p.Ops = append(p.Ops, h.Op{K: "searchrules", Loc: "L", J: events[r.Intn(len(events))]})
+			} else {
+				p.Ops = append(p.Ops, h.Op{K: "listrules", Loc: "L"})
+			}
+		}
+	}
 	// observation schedule around each expiry instant
 	steps := r.Range(3, 10)
 	for i := 0; i < steps; i++ {
@@ -115,15 +139,15 @@ func genC07(r *h.Rng, tier string, idx int) *h.Plan {
 					sleep(target - at)
 				}
 			}
-			p.Ops = append(p.Ops, h.Op{K: "getfact", Loc: "L", Id: r.Pick(ids)})
+			observe()
 		case 1:
 			p.Ops = append(p.Ops, h.Op{K: "reload", B: false})
 		case 2:
 			sleep(time.Duration(r.Range(1, 3000)) * time.Millisecond)
-			p.Ops = append(p.Ops, h.Op{K: "getfact", Loc: "L", Id: r.Pick(ids)})
+			observe()
 		case 3:
 			sleep(time.Duration(r.Range(1, 400)) * 24 * time.Hour)
-			p.Ops = append(p.Ops, h.Op{K: "getfact", Loc: "L", Id: r.Pick(ids)})
+			observe()
 		}
 	}
 	return p
